@@ -83,6 +83,12 @@ def run(ctx):
             other = NEG if forbidden == POS else POS
             if not s & other:
                 return False, shown     # sign-definite the other way (and not provably zero)
+            # undetermined by the sign domain: look for a concrete counter-model of this contribution
+            from ..witness import Search, describe
+            hit = Search(assumptions()).find(part, forbidden)
+            if hit is not None:
+                shown.append(f"witness: {describe(hit[0])} gives {hit[1]:.3g}")
+                return False, shown
             verdict = None
         return verdict, shown
 
@@ -362,6 +368,12 @@ def run(ctx):
         WB + "stress._roughness_estimate", WB + "stress._wave_supported_stress", WB + "stress._tail_supported_stress",
         WB + "wind_inversion._u10_from_spectra", WB + "wind_inversion._u10_from_spectra_gradient",
     ])
+    # ---- R08.6 source-term objects keep no unsynchronised copy of anything derived from a spectrum they were handed
+    from ..statecache import instance_memo_rule, positive_example
+    instance_memo_rule(ctx, "R08.6", [p.get_class(WB + "source_term.SourceTerm"), p.get_class(WB + "balance.SourceTermBalance")],
+                       "source-term classes")
+    positive_example(ctx, "R08.6")
+    ctx.require_count("R08.6", 2)
     ctx.require_count("R08.1", 12)
     ctx.require_count("R08.2", 7)
     ctx.require_count("R08.3", 14)
